@@ -227,6 +227,7 @@ type c01Op struct {
 	kind        string // insert | updateOne | updateMany | replace | deleteOne | deleteMany
 	filter, doc bson.D
 	upsert      bool
+	af          []bson.D // array filters of an update model
 }
 
 func (o c01Op) model() mongo.WriteModel {
@@ -234,9 +235,25 @@ func (o c01Op) model() mongo.WriteModel {
 	case "insert":
 		return mongo.NewInsertOneModel().SetDocument(o.doc)
 	case "updateOne":
-		return mongo.NewUpdateOneModel().SetFilter(o.filter).SetUpdate(o.doc).SetUpsert(o.upsert)
+		mo := mongo.NewUpdateOneModel().SetFilter(o.filter).SetUpdate(o.doc).SetUpsert(o.upsert)
+		if o.af != nil {
+			var fs []interface{}
+			for _, f := range o.af {
+				fs = append(fs, f)
+			}
+			mo.SetArrayFilters(options.ArrayFilters{Filters: fs})
+		}
+		return mo
 	case "updateMany":
-		return mongo.NewUpdateManyModel().SetFilter(o.filter).SetUpdate(o.doc).SetUpsert(o.upsert)
+		mo := mongo.NewUpdateManyModel().SetFilter(o.filter).SetUpdate(o.doc).SetUpsert(o.upsert)
+		if o.af != nil {
+			var fs []interface{}
+			for _, f := range o.af {
+				fs = append(fs, f)
+			}
+			mo.SetArrayFilters(options.ArrayFilters{Filters: fs})
+		}
+		return mo
 	case "replace":
 		return mongo.NewReplaceOneModel().SetFilter(o.filter).SetReplacement(o.doc).SetUpsert(o.upsert)
 	case "deleteOne":
@@ -268,7 +285,7 @@ func pBulk(db, coll string, ordered bool, label string, ops []c01Op) c01Pair {
 				}
 			case "updateOne", "updateMany":
 				var r *refmodel.UpdateRes
-				r, err = m.Update(db, coll, o.filter, o.doc, nil, o.kind == "updateMany", o.upsert, nil)
+				r, err = m.Update(db, coll, o.filter, o.doc, nil, o.kind == "updateMany", o.upsert, o.af)
 				if err == nil {
 					match += r.Matched
 					mod += r.Modified
@@ -703,6 +720,12 @@ func c01Alphabet(full bool) []c01Pair {
 		pBulk("d", "c", true, "ins,upd,del,dupins,ins", []c01Op{{kind: "insert", doc: bD("_id", i(10), "a", i(10))}, {kind: "updateMany", filter: bD(), doc: bD("$set", bD("k", i(1)))}, {kind: "deleteOne", filter: bD("_id", i(2))}, {kind: "insert", doc: d1dup}, {kind: "insert", doc: bD("_id", i(11))}}),
 		pBulk("d", "c", false, "ins,upd,del,dupins,ins", []c01Op{{kind: "insert", doc: bD("_id", i(10), "a", i(10))}, {kind: "updateMany", filter: bD(), doc: bD("$set", bD("k", i(1)))}, {kind: "deleteOne", filter: bD("_id", i(2))}, {kind: "insert", doc: d1dup}, {kind: "insert", doc: bD("_id", i(11))}}),
 		pBulk("d", "c", false, "upsert-replace,upsert-update,delMany", []c01Op{{kind: "replace", filter: bD("_id", i(12)), doc: bD("a", i(1)), upsert: true}, {kind: "updateOne", filter: bD("a", i(77)), doc: bD("$set", bD("b", "x")), upsert: true}, {kind: "deleteMany", filter: bD("a", i(1))}}),
+		// two update models of one batch: the array filters of the first are not those of the second (which has none and
+		// is rejected for its unbound identifier)
+		pBulk("d", "c", false, "upd{13: items.$[e].q+1, e.k>=2};upd{13: items.$[e].q=0, no filters};upd{13: n+1}", []c01Op{
+			{kind: "updateOne", filter: bD("_id", i(13)), doc: bD("$inc", bD("items.$[e].q", i(1))), af: []bson.D{bD("e.k", bD("$gte", i(2)))}},
+			{kind: "updateOne", filter: bD("_id", i(13)), doc: bD("$set", bD("items.$[e].q", i(0)))},
+			{kind: "updateOne", filter: bD("_id", i(13)), doc: bD("$inc", bD("n", i(1)))}}),
 		// a batch whose later item fails half-way through the index updates (secondary unique index)
 		pBulk("d", "c", true, "ins{20};upd{1->a:2};ins{21}", []c01Op{{kind: "insert", doc: bD("_id", i(20), "a", i(20))}, {kind: "updateOne", filter: bD("_id", i(1)), doc: bD("$set", bD("a", i(2)))}, {kind: "insert", doc: bD("_id", i(21))}}),
 		pBulk("d", "c", false, "updMany{a:5};ins{22,a:1};del{1}", []c01Op{{kind: "updateMany", filter: bD(), doc: bD("$set", bD("a", i(5)))}, {kind: "insert", doc: bD("_id", i(22), "a", i(1))}, {kind: "deleteOne", filter: bD("_id", i(1))}}),
